@@ -42,14 +42,22 @@ def _kw(rng):
     return dict(rng.sample(KW_POOL, rng.randint(0, 3)))
 
 
-def _aliases(rng, mods):
+SELF = "=SELF"      # an alias that is the module's own (rendered) name: renames nothing, but still is the most
+                    # specific alias for everything below that module (and an unknown module stays unknown)
+
+
+def _aliases(rng, mods, allow_self=False):
     texts = rng.sample(ALIAS_TEXTS, min(len(mods), len(ALIAS_TEXTS)))
+    if allow_self:
+        texts = [SELF if rng.random() < 0.25 else t for t in texts]
     return [{"mod": list(m), "text": t} for m, t in zip(mods, texts)]
 
 
 def viz_items(rng, alias_mods, k0=0, with_rename=False, render=None):
     """One visualize call (plus the same call in another alias order)."""
-    al = _aliases(rng, alias_mods)
+    # (identity aliases make the back-projection of a label text ambiguous in a rendering-dependent way - a
+    # look-alike sibling's own name plus a suffix can spell the module's name - so they stay out of the rename law)
+    al = _aliases(rng, alias_mods, allow_self=not with_rename)
     kw = _kw(rng)
     sp = rng.choice([None, None, 0.5, 2])
     r0 = render or "ident"
